@@ -1,5 +1,6 @@
 import Driver.JsonUtil
 import DSV.LLO.Plugin
+import DSV.LLO.Observe
 import DSV.Go.Sha256
 open Lean
 namespace Driver
@@ -123,6 +124,42 @@ def handleLLO (op : String) (j : Json) : Option (P Json) :=
       match observationVotes env prev expected with
       | none => pure (Json.mkObj [("err", "refuse")])
       | some (rm, upd) => pure (Json.mkObj [("ok", Json.mkObj [("removes", .arr (rm.map jNat).toArray), ("updates", jDefs upd)])]))
+  | "llo.observation" => some (do
+      -- the whole Observation() callback; the node's clock cannot be injected into the real code, so the
+      -- harness reports the timestamp privately (checked against the wall clock there) and both sides print 0
+      let cfg ← fld j "cfg" >>= asCfg
+      let seqNr ← getNat j "seqNr"
+      let prev ← fld j "prev" >>= asOutcome
+      let expected ← asDefs (fldD j "expected")
+      let badOpts ← (← asArr (fldD j "badOpts")).mapM asBytes
+      let env := mkEnv (fun _ => none) badOpts
+      let att : GoRes (List UInt8) ← (match (fldD j "attested").getObjVal? "ok" with
+        | .ok b => do pure (GoRes.ok (← asBytes b))
+        | .error _ => pure (GoRes.err "cache"))
+      let sr : GoRes Bool ← (match (fldD j "shouldRetire").getObjVal? "ok" with
+        | .ok b => do pure (GoRes.ok (← asBool b))
+        | .error _ => pure (GoRes.err "cache"))
+      let dsj := fldD j "ds"
+      let dsErr := (fldD dsj "err") == Json.bool true
+      let vals ← (← asArr (fldD dsj "vals")).mapM fun e => do pure ((← getNat e "sid"), (← fld e "v" >>= asSV))
+      let vals := GoMap.ofList vals
+      let dsf : List Nat → GoRes (GoMap Nat SV) := fun req =>
+        if dsErr then .err "ds" else .ok (vals.filter (fun e => req.contains e.1))
+      let nd : Node := Node.mk 0 att sr expected dsf
+      match codecRoundTrip cfg prev with
+      | .ok p =>
+        let asked : Json :=
+          if seqNr ≥ 2 && p.stage != stageRetired && !p.defs.isEmpty
+            && (callAttested cfg p nd).isOk && (callShouldRetire nd).isOk then
+            .arr ((requestedStreams p.defs).mergeSort (fun a b => decide (a ≤ b)) |>.map jNat).toArray
+          else .null
+        pure (match observation env cfg seqNr p nd with
+          | .ok none => Json.mkObj [("ok", .null)]
+          | .ok (some o) => Json.mkObj [("ok", Json.mkObj [("obs", jObs o), ("requested", asked),
+              ("accepted", .bool (validateObservation env cfg seqNr false o).isNone)])]
+          | .err e => Json.mkObj [("err", .str e)]
+          | .panic => Json.mkObj [("panic", .bool true)])
+      | _ => pure (Json.mkObj [("err", "encode-prev")]))
   | "llo.history" => some (do
       -- rounds are threaded: the outcome of round k is the previous outcome of round k+1; a failing
       -- round leaves the state unchanged (OCR3 retries the round with other inputs)
